@@ -329,6 +329,91 @@ impl C04 {
                     }
                 }
             }
+            // (b6) rival bundle: the stranger owns a position bundle of their own (every index marked open) with its token, signs
+            // for it, and names the victim's bundled position as the one to close
+            if name == "close_bundled_position" && *slot == "position_bundle_authority" {
+                if let (Some(bi), Some(ti), Some(ri)) = (c.idx("position_bundle"), c.idx("position_bundle_token_account"), c.idx("receiver")) {
+                    if let (Some(ba), Some(ta)) = (v.pre.get(&v.ix.accounts[bi].pubkey), v.pre.get(&v.ix.accounts[ti].pubkey)) {
+                        if ba.data.len() == 136 && ta.data.len() >= 165 {
+                            let rival_mint = scratch_key(salt, 4201);
+                            let rival_bundle = ix::pda_position_bundle(&rival_mint);
+                            let rival_token = scratch_key(salt, 4202);
+                            let mut bd = (*ba.data).clone();
+                            bd[8..40].copy_from_slice(rival_mint.as_ref());
+                            bd[40..72].fill(0xff);
+                            let mut td = (*ta.data).clone();
+                            td[0..32].copy_from_slice(rival_mint.as_ref());
+                            td[32..64].copy_from_slice(attacker.as_ref());
+                            td[64..72].copy_from_slice(&1u64.to_le_bytes());
+                            td[72..76].copy_from_slice(&0u32.to_le_bytes());
+                            let mut f = base.clone();
+                            f.put(rival_bundle, Account::new(ba.lamports, bd, ba.owner));
+                            f.put(rival_token, Account::new(ta.lamports, td, ta.owner));
+                            let mut ixn = v.ix.clone();
+                            ixn.accounts[i].pubkey = attacker;
+                            ixn.accounts[i].is_signer = true;
+                            ixn.accounts[bi].pubkey = rival_bundle;
+                            ixn.accounts[ti].pubkey = rival_token;
+                            ixn.accounts[ri].pubkey = attacker;
+                            let r = exec(&f, ixn);
+                            cov.eval(format!("{}|{}|rival_bundle", name, slot));
+                            self.cell(format!("{} / {} / rival position bundle owned by the stranger", name, slot), !r.ok);
+                            if r.ok {
+                                out.push(v04("rival_container_accepted", idx, format!("{}: a stranger closed the victim's bundled position by signing for a position bundle of their own (same index open) and collecting the rent", name)));
+                                return;
+                            }
+                        }
+                    }
+                }
+            }
+            // (b5) the recorded authority has been cleared: wherever a program-owned account of this instruction stores the
+            // right key, the copy stores the all-zero key instead ("no authority set"). Nobody can sign as the zero key,
+            // so the stranger's signature must still be refused. (The pool-creation authority of an adaptive fee tier is
+            // the documented exception: an empty field there means permission-less.)
+            if *slot != "initialize_pool_authority" && right != Pubkey::default() {
+                let mut f = base.clone();
+                let mut cleared = 0;
+                let rb = right.to_bytes();
+                let mut seen: Vec<Pubkey> = Vec::new();
+                for mm in &v.ix.accounts {
+                    if seen.contains(&mm.pubkey) {
+                        continue;
+                    }
+                    seen.push(mm.pubkey);
+                    let Some(a) = v.pre.get(&mm.pubkey) else { continue };
+                    if a.owner != ix::wp() || a.data.len() < 40 {
+                        continue;
+                    }
+                    let mut d = (*a.data).clone();
+                    let mut hit = false;
+                    let mut o = 8;
+                    while o + 32 <= d.len() {
+                        if d[o..o + 32] == rb {
+                            d[o..o + 32].fill(0);
+                            hit = true;
+                            o += 32;
+                        } else {
+                            o += 1;
+                        }
+                    }
+                    if hit {
+                        f.put(mm.pubkey, Account::new(a.lamports, d, a.owner));
+                        cleared += 1;
+                    }
+                }
+                if cleared > 0 {
+                    let mut ixn = v.ix.clone();
+                    ixn.accounts[i].pubkey = attacker;
+                    ixn.accounts[i].is_signer = true;
+                    let r = exec(&f, ixn);
+                    cov.eval(format!("{}|{}|recorded_authority_cleared", name, slot));
+                    self.cell(format!("{} / {} / recorded authority cleared to the zero key, stranger signs", name, slot), !r.ok);
+                    if r.ok {
+                        out.push(v04("wrong_signer_accepted", idx, format!("{}: succeeded for a stranger signing as `{}` when the recorded authority is the all-zero key (no authority set)", name, slot)));
+                        return;
+                    }
+                }
+            }
             // (b4) pools created by older program versions keep the former authority key in the spare reward slots 1 and 2
             // (until someone runs the migration). A key that only sits there must not pass as the reward authority,
             // whatever reward index the call names.
